@@ -4,7 +4,7 @@
    transaction took from the free list return). The committed view cannot change without the switch
    step (C02_uncommitted_invisible). rollback_exact: for every sequence of data allocations and frees the
    rollback restores the allocator exactly (as a set of free pages + all markers and counters). *)
-From VF Require Import Region Freelist Alloc RegionProofs AllocProofs TxAllocProofs MetaAllocProofs.
+From VF Require Import Region Freelist Alloc RegionProofs AllocProofs TxAllocProofs MetaAllocProofs OverflowProofs.
 From Coq Require Import Lia.
 
 Theorem C07_area_rollback : forall ar x,
@@ -126,6 +126,30 @@ Qed.
    the committed state reads every page that existed before exactly as before: the scheduled writes only go to
    pages the transaction allocated itself, to fresh overwrite pages, or to the original location of pages whose
    committed contents live in an overwrite page ---- *)
+(* a transaction with the overflow area enabled that made the meta area grow beyond the end of the file (taking
+   everything the data area had left, and fresh pages behind the limit) and is rolled back leaves the allocator
+   as it found it (the repair of D6/D9: the growth of the meta-area size and the pages at/after the restored end
+   marker are undone) *)
+Theorem C07_rollback_after_overflow_growth : forall a0 p count ok a t,
+  DataInv a0 -> wff 2 (a_free (meta a0)) ->
+  (forall id, inl id (fregions (a_free (meta a0))) ->
+     ~ inl id (fregions (a_free (data a0))) /\ id < a_end (meta a0) /\ (id < a_end (data a0) \/ maxPages a0 <= id)) ->
+  a_end (data a0) <= a_end (meta a0) ->
+  0 < maxPages a0 -> 0 < count < 2^32 -> data_avail a0 < count ->
+  Z.max (a_end (meta a0)) (maxPages a0) + count - a_end (data a0) < 2^32 ->
+  try_grow a0 (make_tx a0 true p) count true = (ok, a, t) ->
+  let r := rollback a t in
+  maxPages r = maxPages a0 /\ pageSize r = pageSize a0 /\ flRoot r = flRoot a0 /\ flPages r = flPages a0 /\
+  metaTotal r = metaTotal a0 /\
+  a_end (meta r) = a_end (meta a0) /\ wff 2 (a_free (meta r)) /\
+  (forall id, inl id (fregions (a_free (meta r))) <-> inl id (fregions (a_free (meta a0)))) /\
+  avail (a_free (meta r)) = avail (a_free (meta a0)) /\
+  a_end (data r) = a_end (data a0) /\ wff 2 (a_free (data r)) /\
+  (forall id, inl id (fregions (a_free (data r))) <-> inl id (fregions (a_free (data a0)))) /\
+  avail (a_free (data r)) = avail (a_free (data a0)).
+Proof. exact rollback_after_overflow_growth. Qed.
+Print Assumptions C07_rollback_after_overflow_growth.
+
 From VF Require Import TxCore TxCoreProofs.
 Theorem C07_aborted_tx_invisible : forall (V : Type) (s : fstate V) (fresh0 : list Z),
   WF V s fresh0 -> forall ops id,
